@@ -66,7 +66,7 @@ PROPS = {
         "timeout": 1500,
     },
     "C14": {
-        "lean_modules": ["JrpcProofs.Props.C14", "JrpcProofs.Facts.Locks", "JrpcProofs.Facts.Writers", "JrpcProofs.Facts.Cancel"],
+        "lean_modules": ["JrpcProofs.Props.C14", "JrpcProofs.Facts.Locks", "JrpcProofs.Facts.Writers", "JrpcProofs.Facts.Cancel", "JrpcProofs.Facts.Stream"],
         "race": True,
         "assumptions": [
             "gorilla/websocket writes a message as one or more frames of one message (reassembled by the proxy) and detects overlapping writers by panicking",
